@@ -150,6 +150,22 @@ CLAIMED["C12"] = dict(
     technique="Lean 4 theorems (paths resolve, RFC 9535 slice equivalence, option laws, json_replace exactness) + differential queries against the Lean selector model",
     design="§5 C12")
 
+CLAIMED["C13"] = dict(
+    text="A reference interpreter for JMESPath written in Lean 4 from the specification (identifiers, sub-expressions, index/slice, list/object/flatten/"
+         "filter projections with null-dropping and projection scoping, pipes, ||, &&, !, comparisons, multiselect lists/hashes, literals, 23 built-in "
+         "functions with their type/arity checks and expression references). Proved about it: projections drop nulls and are null off their container "
+         "type, pipe associativity, !! = truthiness, || and && idempotent and short-circuiting, reverse involution, to_array idempotent, sort returns a "
+         "sorted permutation, and its slice rule equals - for all integers - the start/stop/step arithmetic the implementation executes (itself proved "
+         "equal to RFC 9535 / Python slicing). Tie: generated expressions (document-guided, depth 3, random spellings) and every function on every "
+         "argument kind, evaluated by jsoncons (one-shot, error_code and throwing overloads, compiled twice, document checked unchanged) and judged "
+         "against the reference's value or error kind.",
+    note="Partial: the reference is integer-only (an evaluation that leaves the integers is unjudged), to_string of non-strings and contains(string, "
+         "non-string) are unjudged, avg/ceil/floor and let-expressions are not modelled; unknown-function, arity and zero-step errors may be reported "
+         "at compile time by the library and are accepted as such. jsoncons' expression parser is not modelled: the generator renders the AST to text. "
+         "Found and fixed: D34 D35 D36 D37 D38 D39 D40 D41 D42 and the slice overflow D3b.",
+    technique="Lean 4 reference interpreter + theorems (projection laws, operator identities, slice rule = implementation arithmetic) + differential search",
+    design="§5 C13")
+
 ALL = ["C%02d" % i for i in range(1, 21)]
 NOT_YET = "not claimed yet: the Lean model, theorems and correspondence harness for this property are still being built (see DESIGN.md §8 staging)"
 
